@@ -7,10 +7,33 @@ REMOVERS = ("std::fs::remove_file", "std::fs::remove_dir_all", "std::fs::remove_
 
 
 def result_switch(R, call_node):
-    """const-discriminant edges of the first switch after an inlined call returns in the caller frame:
-    returns {0: [edges], 1: [edges]}"""
+    """edges of the switch(es) in the caller that test the discriminant of the value returned by the inlined call at
+    call_node (wherever in the caller they are): returns {0: [edges], 1: [edges]}"""
     eng = R.eng
     fid = call_node[0]
+    dests = set()
+    for ev in R.by_node.get(call_node, []):
+        if ev.inlined and ev.dest is not None:
+            dests.add((ev.dest[0], tuple(ev.dest[1])))
+    out = {}
+    # the returned value may be moved before it is matched: follow plain moves of the destination inside the caller
+    moved = set(dests)
+    for (node, root, path, v) in eng.writes_log:
+        pass
+    reach = R.g.reachable([call_node])
+    for sw, srcs in eng.switch_src.items():
+        if sw[0] != fid or sw not in reach:
+            continue
+        if not any((s_[0], tuple(s_[1])) in moved for s_ in srcs):
+            continue
+        for (edge, conds) in eng.edge_conds.items():
+            if edge[0] == sw:
+                for c in conds:
+                    if c[0] == "const":
+                        out.setdefault(c[1], []).append(edge)
+    if out:
+        return out
+    # fallback: first switch with constant discriminant after the call (value matched through a temporary)
     body = eng.frame_bodies[fid]
     t = body.blocks[call_node[1]]["term"]
     cur = t.get("t")
@@ -76,7 +99,6 @@ def check(world, tier):
     a.need(len(ok_edges), 1, "Ok edge of the transfer result")
     a.need(len(err_edges), 1, "Err edge of the transfer result")
     creates = [e for e in Rv.events if not e.inlined and base_name(e) in ("std::fs::File::create", "std::fs::OpenOptions::open")]
-    fi_clean = prog.field_index(WORKER, "clean_on_error")
     # clean_on_error symbol(s): captured copy (own upvar) or the worker's field
     clean_syms = set()
     u = worker_upvar(Rv)
@@ -112,7 +134,7 @@ def check(world, tier):
         # same path as the create
         for cr in creates:
             pi = 0 if base_name(cr) == "std::fs::File::create" else 1
-            same = len(cr.args) > pi and e.args and cr.args[pi] == e.args[0]
+            same = (len(cr.args) > pi and e.args and cr.args[pi] == e.args[0]) or same_captured_value(Rv, env_key(Rv, cr, pi), env_key(Rv, e, 0))
             a.ob(same, "remove-other-path", "the path removed on error is not the path that was created", e.loc,
                  sample={"remove path == create path": same})
     # always reached on Err && clean
